@@ -16,8 +16,8 @@ extern "C" {
 #include "mantis-cipher.h"
 }
 
-enum AOp { A_SETKEY, A_SETTWEAK, A_SWAP, A_ENC, A_DEC, A_CLEAR, A_SETIV, A_CENC, A_CDEC, A_NOPS };
-static const char *AOPN[] = {"setKey", "setTweak", "swapModes", "encryptBlock", "decryptBlock", "clear", "setIV", "encrypt", "decrypt"};
+enum AOp { A_SETKEY, A_SETTWEAK, A_SWAP, A_ENC, A_DEC, A_CLEAR, A_SETIV, A_CENC, A_CDEC, A_SETCSIZE, A_NOPS };
+static const char *AOPN[] = {"setKey", "setTweak", "swapModes", "encryptBlock", "decryptBlock", "clear", "setIV", "encrypt", "decrypt", "setCounterSize"};
 struct Op { int code = 0; uint32_t len = 0; bool null = false, inplace = false; Bytes a; };
 struct Hist { int cls = 0; std::vector<Op> ops;
               int pre_cls = -1; Bytes pre_key, pre_blk; };     // a companion object of another block-cipher class, keyed and used before (and after) the history: the classes must not share hidden state
@@ -65,6 +65,8 @@ struct CRef {
     Skinny128TweakedKey_t k128; Skinny64TweakedKey_t k64; MantisKey_t km; Skinny128CTR_t ctr; bool ctr_init = false;
     Skinny64CTR_t c64; MantisCTR_t cm; bool c64_init = false, cm_init = false;
     bool keyed = false, iv_set = false;
+    bool fresh_iv = false; uint8_t last_iv[16] = {0};     // setIV() with no data since: a following setKey() must leave the counter alone
+    bool csize_restricted = false;                         // setCounterSize(s < 16): the carry stops early, which the C library has no equivalent for - streams are not compared until it is 16 again
     bool zero_iv_pending = false;     // clear() left the all-zero counter and no buffered keystream: the next setKey alone defines the stream
     ~CRef() { if (ctr_init) skinny128_ctr_cleanup(&ctr); if (c64_init) skinny64_ctr_cleanup(&c64); if (cm_init) mantis_ctr_cleanup(&cm); }
 };
@@ -80,6 +82,7 @@ static Hist make_hist(uint64_t seed, uint64_t run) {
         else if (ci.ctr) {
             if (c < 30) { o.code = A_SETIV; o.len = r.chance(7, 8) ? (ci.bs == 8 && r.chance(1, 2) ? 8 : 16) : r.below(20); o.a = rb(o.len); if (r.chance(1, 4) && o.len == 16) { std::fill(o.a.begin(), o.a.end(), 0xFF); o.a[15] = (uint8_t)(0xFF - r.below(6)); } }
             else if (c < 36) o.code = A_CLEAR, keyed = false;
+            else if (c < 42) { o.code = A_SETCSIZE; static const unsigned CS[] = {16, 16, 16, 8, 4, 1, 0, 17, 255, 256, 257, 260, 264, 272, 516, 65552}; o.len = CS[r.below(16)]; }
             else { o.code = r.chance(1, 2) ? A_CENC : A_CDEC; static const unsigned L[] = {0, 1, 15, 16, 17, 31, 32, 33, 64, 100}; o.len = r.chance(1, 2) ? L[r.below(10)] : r.below(200); o.a = r.bytes(o.len); o.inplace = r.chance(1, 3); }
         } else {
             if (c < 30 && ci.tweaked) {
@@ -151,6 +154,7 @@ static std::vector<Finding> evaluate(const Hist &H, uint64_t *compared, std::vec
                 C.keyed = true; C.iv_set = false;
                 if (ci.ctr) { if (ci.tweaked) skinny128_ctr_set_tweaked_key(&C.ctr, o.a.data(), o.len); else skinny128_ctr_set_key(&C.ctr, o.a.data(), o.len); }
                 if (ci.ctr && C.zero_iv_pending) { uint8_t z[16] = {0}; skinny128_ctr_set_counter(&C.ctr, z, 16); C.iv_set = true; }     // clear(); setKey(); encrypt() starts at counter 0
+                else if (ci.ctr && C.fresh_iv) { skinny128_ctr_set_counter(&C.ctr, C.last_iv, 16); C.iv_set = true; }                   // setIV(); setKey(); encrypt(): neither side's setKey touches the counter
                 else if (ci.fam == 0) { if (ci.tweaked) skinny128_set_tweaked_key(&C.k128, o.a.data(), o.len); else skinny128_set_key(&C.k128.ks, o.a.data(), o.len); }
                 else if (ci.fam == 1) { if (ci.tweaked) skinny64_set_tweaked_key(&C.k64, o.a.data(), o.len); else skinny64_set_key(&C.k64.ks, o.a.data(), o.len); }
                 else mantis_set_key(&C.km, o.a.data(), 16, 8, MANTIS_ENCRYPT);
@@ -168,7 +172,7 @@ static std::vector<Finding> evaluate(const Hist &H, uint64_t *compared, std::vec
             note = strf("-> %d", ra); break;
         }
         case A_SWAP: if (A.swap) { A.swap(A); if (C.keyed) mantis_swap_modes(&C.km); } break;
-        case A_CLEAR: if (ci.ctr) A.ctr->clear(); else A.bc->clear(); C.keyed = false; C.iv_set = false; C.zero_iv_pending = ci.ctr; break;
+        case A_CLEAR: if (ci.ctr) A.ctr->clear(); else A.bc->clear(); C.keyed = false; C.iv_set = false; C.zero_iv_pending = ci.ctr; C.fresh_iv = false; break;
         case A_ENC: case A_DEC: {
             if (ci.ctr) break;
             uint8_t in[16], oa[16], oc[16]; memcpy(in, o.a.data(), ci.bs);
@@ -183,18 +187,26 @@ static std::vector<Finding> evaluate(const Hist &H, uint64_t *compared, std::vec
             if (memcmp(oa, oc, ci.bs) != 0) { F.push_back({"block-mismatch", strf("%s: Arduino %s, C library %s", op_str(H, o).c_str(), hex(oa, ci.bs).c_str(), hex(oc, ci.bs).c_str()), (int)i}); return F; }
             note = "-> " + hex(oa, ci.bs); break;
         }
+        case A_SETCSIZE: {
+            if (!ci.ctr) break;
+            bool ra = A.ctr->setCounterSize(o.len); bool want = o.len >= 1 && o.len <= 16;
+            if (ra != want) { F.push_back({"return-value", strf("%s(%u) returned %d, expected %d", op_str(H, o).c_str(), o.len, ra, want), (int)i}); return F; }
+            if (want) C.csize_restricted = o.len != 16;
+            note = strf("-> %d", ra); break;
+        }
         case A_SETIV: {
             if (!ci.ctr) break;
             if (ctr64) { bool r8 = A.ctr->setIV(o.a.data(), o.len); C.iv_set = false; if (r8 && o.len == 8) { c64_setctr(o.a.data()); C.iv_set = true; C.zero_iv_pending = false; } note = strf("-> %d", r8); break; }
             bool ra = A.ctr->setIV(o.a.data(), o.len); bool want = o.len == 16;
             if (ra != want) { F.push_back({"return-value", strf("%s returned %d, expected %d", op_str(H, o).c_str(), ra, want), (int)i}); return F; }
-            if (want) { skinny128_ctr_set_counter(&C.ctr, o.a.data(), 16); C.iv_set = true; C.zero_iv_pending = false; }
+            if (want) { skinny128_ctr_set_counter(&C.ctr, o.a.data(), 16); C.iv_set = true; C.zero_iv_pending = false; C.fresh_iv = true; memcpy(C.last_iv, o.a.data(), 16); }
             note = strf("-> %d", ra); break;
         }
         case A_CENC: case A_CDEC: {
             if (!ci.ctr) break;
             if (!C.keyed || !C.iv_set) break;         // both sides are only defined after setKey + setIV
-            if (o.len) C.zero_iv_pending = false;       // the counter has moved on
+            if (o.len) { C.zero_iv_pending = false; C.fresh_iv = false; }       // the counter has moved on
+            if (C.csize_restricted) { Bytes tmp(o.len), in2 = o.a; if (o.len) A.ctr->encrypt(tmp.data(), in2.data(), o.len); C.iv_set = false; break; }    // executed, not compared; the streams are out of step from here until the next setIV
             Bytes oa(o.len), oc(o.len), in = o.a;
             if (o.inplace) { oa = in; if (o.code == A_CENC) A.ctr->encrypt(oa.data(), oa.data(), o.len); else A.ctr->decrypt(oa.data(), oa.data(), o.len); }
             else { if (o.code == A_CENC) A.ctr->encrypt(oa.data(), in.data(), o.len); else A.ctr->decrypt(oa.data(), in.data(), o.len); }
